@@ -11,7 +11,7 @@
 //! parked task at a time and so enumerates every ordering of a reload and one (two)
 //! in-flight queries, observing which releases block on the zones lock.
 
-use crate::c09::{build_msg, q, udp_batch, DirGuard, LogBuf, Server};
+use crate::c09::{build_msg, q, start_forwarder, udp_batch, DirGuard, Forwarder, LogBuf, Server};
 use crate::common::*;
 use crate::refwire;
 use dns_types::protocol::types::*;
@@ -298,11 +298,36 @@ fn edit_by_name(name: &str) -> Option<Edit> {
 }
 
 fn marker_queries(id0: u16) -> Vec<Vec<u8>> {
+    marker_queries_with(id0, 0, 1)
+}
+
+const FLAG_RD: u16 = 0x0100;
+/// last octet of the address the harness-run upstream gives for every name
+const UPSTREAM_OCTET: u8 = 53;
+
+fn marker_queries_with(id0: u16, flags: u16, qtype: u16) -> Vec<Vec<u8>> {
     MARKERS
         .iter()
         .enumerate()
-        .map(|(i, n)| build_msg(id0 + i as u16, 0, &[q(n, 1, 1)], &[], None))
+        .map(|(i, n)| build_msg(id0 + i as u16, flags, &[q(n, qtype, 1)], &[], None))
         .collect()
+}
+
+/// `fits` for a server that forwards what it cannot answer locally: a name about which
+/// nothing is configured is answered by the upstream (`A 192.0.2.53` for every name).
+fn fits_fwd(exp: &MarkerExp, got: &Option<(u8, Vec<u8>)>) -> bool {
+    match (exp.addr, exp.in_zone, got) {
+        (None, false, Some((0, v))) => v.len() == 1 && v[0] == UPSTREAM_OCTET,
+        (None, false, _) => false,
+        _ => fits(exp, got),
+    }
+}
+
+fn show_exp_fwd(e: &MarkerExp) -> String {
+    match (e.addr, e.in_zone) {
+        (None, false) => format!("the upstream's A 192.0.2.{UPSTREAM_OCTET}"),
+        _ => show_exp(e),
+    }
 }
 
 /// (rcode, last octets of the A records in the answer section), or None when no reply.
@@ -349,6 +374,10 @@ struct SeqServer {
     next_id: u16,
     /// the configuration in force, by the reference model
     loaded: Files,
+    /// the server forwards to a harness-run upstream (default cache size); every
+    /// marker is asked ANY and A with RD set before each reload, so that whatever
+    /// such questions leave in the cache is there when the configuration changes
+    fwd: Option<Forwarder>,
 }
 
 #[derive(Default)]
@@ -374,22 +403,36 @@ impl SeqServer {
         if expect_ok {
             *loaded = *files;
         }
+        let is_fwd = self.fwd.is_some();
+        let flags = if is_fwd { FLAG_RD } else { 0 };
+        let fit = |e: &MarkerExp, g: &Option<(u8, Vec<u8>)>| if is_fwd { fits_fwd(e, g) } else { fits(e, g) };
+        let show = |e: &MarkerExp| if is_fwd { show_exp_fwd(e) } else { show_exp(e) };
+        if is_fwd {
+            // primers: ANY and A with RD set, answers not judged here
+            let want = vec![true; MARKERS.len()];
+            for qtype in [255u16, 1] {
+                let id0 = self.ids();
+                let qs = marker_queries_with(id0, FLAG_RD, qtype);
+                let _ = udp_batch(self.srv.addr, &qs, &want, qs.len(), 1);
+                stats.marker_queries += qs.len() as u64;
+            }
+        }
         self.srv.signal(libc::SIGUSR1);
         stats.signals += 1;
         // during: each marker must answer per the old or per the new table
         let want = vec![true; MARKERS.len()];
         if full {
             let id0 = self.ids();
-            let qs = marker_queries(id0);
+            let qs = marker_queries_with(id0, flags, 1);
             let during = udp_batch(self.srv.addr, &qs, &want, qs.len(), 1);
             stats.during_queries += qs.len() as u64;
             let (t_old, t_new) = (table(&old), table(loaded));
             for (i, name) in MARKERS.iter().enumerate() {
                 let got = digest_reply(during.replies[i].first());
-                if !fits(&t_old[i], &got) && !fits(&t_new[i], &got) {
+                if !fit(&t_old[i], &got) && !fit(&t_new[i], &got) {
                     stats.findings.push((
                         "during-reload".into(),
-                        format!("{what}: `{name} A` asked while the reload ran answered {}; old configuration says {}, new says {}", show_got(&got), show_exp(&t_old[i]), show_exp(&t_new[i])),
+                        format!("{what}: `{name} A` asked while the reload ran answered {}; old configuration says {}, new says {}", show_got(&got), show(&t_old[i]), show(&t_new[i])),
                     ));
                 }
             }
@@ -414,7 +457,7 @@ impl SeqServer {
             return;
         }
         let id0 = self.ids();
-        let qs = marker_queries(id0);
+        let qs = marker_queries_with(id0, flags, 1);
         let after = udp_batch(self.srv.addr, &qs, &want, qs.len(), 1);
         stats.marker_queries += qs.len() as u64;
         if after.dead || !self.srv.alive() {
@@ -424,11 +467,11 @@ impl SeqServer {
         let t = table(loaded);
         for (i, name) in MARKERS.iter().enumerate() {
             let got = digest_reply(after.replies[i].first());
-            if !fits(&t[i], &got) {
+            if !fit(&t[i], &got) {
                 let clause = if expect_ok { "after-successful-reload" } else { "after-failed-reload" };
                 stats.findings.push((
                     clause.into(),
-                    format!("{what}: `{name} A` answered {}; the configuration in force says {}", show_got(&got), show_exp(&t[i])),
+                    format!("{what}: `{name} A` answered {}; the configuration in force says {}", show_got(&got), show(&t[i])),
                 ));
             }
         }
@@ -474,13 +517,19 @@ impl SeqServer {
 }
 
 fn start_seq_server(root: &Path, k: usize) -> Result<SeqServer, String> {
-    let dir = root.join(format!("seq{k}"));
+    start_seq_server_mode(root, k, false)
+}
+
+fn start_seq_server_mode(root: &Path, k: usize, forwarding: bool) -> Result<SeqServer, String> {
+    let dir = root.join(format!("seq{}{k}", if forwarding { "f" } else { "" }));
     std::fs::create_dir_all(&dir).map_err(|e| format!("{e}"))?;
     write_files(&dir, &BASE)?;
-    let args: Vec<String> = vec![
-        "--authoritative-only".into(),
-        "-s".into(),
-        "1".into(),
+    let fwd = if forwarding { Some(start_forwarder()?) } else { None };
+    let mut args: Vec<String> = match &fwd {
+        Some(f) => vec!["-f".into(), f.addr.to_string()],
+        None => vec!["--authoritative-only".into(), "-s".into(), "1".into()],
+    };
+    args.extend([
         "-Z".into(),
         dir.join("zdir").display().to_string(),
         "-A".into(),
@@ -489,9 +538,9 @@ fn start_seq_server(root: &Path, k: usize) -> Result<SeqServer, String> {
         dir.join("main.zone").display().to_string(),
         "-a".into(),
         dir.join("main.hosts").display().to_string(),
-    ];
+    ]);
     let srv = Server::start(&args, &[], "info")?;
-    Ok(SeqServer { dir, srv, next_id: 1, loaded: BASE })
+    Ok(SeqServer { dir, srv, next_id: 1, loaded: BASE, fwd })
 }
 
 // =====================================================================================
@@ -1268,11 +1317,11 @@ fn explore_gates(servers: &mut [GateServer], roots: Vec<GateJob>, deadline: Inst
     totals.into_inner().unwrap()
 }
 
-fn seq_violation(edits: &[&str], clause: &str, text: &str) -> Violation {
+fn seq_violation(edits: &[&str], forwarding: bool, clause: &str, text: &str) -> Violation {
     Violation {
         clause: clause.to_string(),
-        summary: format!("[sequential] {text}"),
-        replay: json!({"part": "sequential", "edits": edits}),
+        summary: format!("[sequential{}] {text}", if forwarding { ", forwarding mode" } else { "" }),
+        replay: json!({"part": "sequential", "forwarding": forwarding, "edits": edits}),
         slug: None,
     }
 }
@@ -1293,6 +1342,19 @@ pub fn run(ctx: &Ctx) -> i32 {
             }
         }
     }
+    // forwarding-mode servers (harness-run upstream, default cache size): the same
+    // sequences up to depth 2, with ANY / A questions before every reload
+    let n_fwd = ctx.tier.pick(2usize, 4);
+    for k in 0..n_fwd {
+        match start_seq_server_mode(&root, k, true) {
+            Ok(s) => seq_servers.push(s),
+            Err(e) => {
+                eprintln!("C19: machinery error: {e}");
+                return 2;
+            }
+        }
+    }
+    let fwd_sequences = AtomicU64::new(0);
     let mut gate_servers: Vec<GateServer> = Vec::new();
     for k in 0..n_gate {
         match start_gate_server(&root, k) {
@@ -1363,11 +1425,16 @@ pub fn run(ctx: &Ctx) -> i32 {
                 }
             }
             let next = AtomicUsize::new(0);
+            let next_fwd = AtomicUsize::new(0);
             let results: Mutex<Vec<(usize, Option<(Files, Files)>)>> = Mutex::new(Vec::new());
             std::thread::scope(|s| {
                 for srv in seq_servers.iter_mut() {
                     s.spawn(|| loop {
-                        let i = next.fetch_add(1, Ordering::Relaxed);
+                        let is_fwd = srv.fwd.is_some();
+                        if is_fwd && depth > 2 {
+                            break;
+                        }
+                        let i = if is_fwd { next_fwd.fetch_add(1, Ordering::Relaxed) } else { next.fetch_add(1, Ordering::Relaxed) };
                         if i >= cands.len() {
                             break;
                         }
@@ -1390,10 +1457,22 @@ pub fn run(ctx: &Ctx) -> i32 {
                         seq_counts.3.fetch_add(stats.during_queries, Ordering::Relaxed);
                         let names: Vec<&str> = cands[i].iter().map(|(n, _)| *n).collect();
                         for (c, text) in &stats.findings {
-                            sink.push(seq_violation(&names, c, text));
+                            sink.push(seq_violation(&names, is_fwd, c, text));
                             if c == "liveness" {
                                 seq_dead.store(true, Ordering::SeqCst);
                             }
+                        }
+                        if is_fwd {
+                            fwd_sequences.fetch_add(1, Ordering::Relaxed);
+                            if let Some((files, _)) = end {
+                                let key = format!(
+                                    "sequential, forwarding mode/depth {}/last reload {}",
+                                    names.len(),
+                                    if files.valid() { "succeeds" } else { "fails (old configuration kept)" }
+                                );
+                                *seq_hist.lock().unwrap().entry(key).or_insert(0) += 1;
+                            }
+                            continue;
                         }
                         if let Some((files, loaded)) = end {
                             let key = format!(
@@ -1447,7 +1526,7 @@ pub fn run(ctx: &Ctx) -> i32 {
     // liveness of every process at the end
     for s in seq_servers.iter_mut() {
         if !s.srv.alive() {
-            sink.push(seq_violation(&[], "liveness", &format!("a server process is gone at the end of the run: {}", s.srv.exit_status())));
+            sink.push(seq_violation(&[], s.fwd.is_some(), "liveness", &format!("a server process is gone at the end of the run: {}", s.srv.exit_status())));
         }
     }
     for g in gate_servers.iter_mut() {
@@ -1558,7 +1637,7 @@ pub fn replay(_ctx: &Ctx, v: &Value) -> i32 {
             eprintln!("C19: replay file names an unknown edit");
             return 2;
         }
-        let mut srv = match start_seq_server(&root, 0) {
+        let mut srv = match start_seq_server_mode(&root, 0, v["forwarding"].as_bool().unwrap_or(false)) {
             Ok(s) => s,
             Err(e) => {
                 eprintln!("C19: machinery error: {e}");
